@@ -5,6 +5,7 @@ from .. import mir as M
 from .. import panic as P
 
 META = {
+    "all_features": True,
     "explanation": "(a) Panic-path enumeration: over the call-graph closure (resolved callees, closure creation edges, class-hierarchy "
                    "expansion of calls through OpAccess/StateRead/StateReads/OpGasCost) of the VM entry points every panic-capable construct "
                    "(MIR Assert terminators for overflow / bounds / division, calls of panicking std APIs, panic!/unreachable!) is enumerated "
